@@ -578,6 +578,9 @@ fn cmd_supervise(prop: Prop, tier: Tier, opts: &std::collections::HashMap<String
     }
     candidates.sort();
     candidates.dedup();
+    // Run numbers are handed out consecutively: everything below the in-flight ones had completed.
+    let completed_lower_bound = candidates.first().copied().unwrap_or(0);
+    let started = std::time::Instant::now();
     if let Some(i) = minimising {
         // The violation was found and confirmed; a shrinking candidate killed the process.
         candidates = vec![i];
@@ -637,8 +640,12 @@ fn cmd_supervise(prop: Prop, tier: Tier, opts: &std::collections::HashMap<String
         println!("violation rule=process-abort run_index={i} run_seed={seed}");
         println!("detail: {detail}");
         println!("VIOLATION property={} replay={}", prop.name(), path);
+        // What is known about the batch that died: a lower bound on the completed runs and the
+        // culprit itself; distinct / non-trivial counts died with the process (0 = not measured).
         let mut bo = runner::BatchOut::default();
-        bo.wall_s = 0.0;
+        bo.evaluations = completed_lower_bound + 1;
+        bo.wall_s = started.elapsed().as_secs_f64();
+        bo.samples.push(json!({"run_index": i, "seed": seed.to_string(), "plan": found.plan, "note": "the run that aborted the process"}));
         write_evidence(prop, tier, base_seed, &cfg, &bo, 1);
         return 1;
     }
